@@ -22,6 +22,7 @@ import (
 type Case struct {
 	Path   []string `json:"path"` // node0 | node1 | dedicated | dedicate
 	Method string   `json:"method"`
+	Stack  int      `json:"stack,omitempty"` // number of stacked hooks: WithHook(…WithHook(fake, h1)…, hn); 0 means 1
 }
 
 // ---------------------------------------------------------------- recorder and fakes
@@ -128,9 +129,12 @@ func (f *fakeDed) SetOnInvalidations(fn func([]rueidis.RedisMessage)) <-chan err
 func (f *fakeDed) Close() { f.note("Close") }
 
 // the hook: record, then perform the same call on the client it was handed
-type hook struct{ r *rec }
+type hook struct {
+	r     *rec
+	level uint64 // 1 = innermost (applied first)
+}
 
-func (h *hook) note(m string) { h.r.evs = append(h.r.evs, ev{"hook", m, 0}) }
+func (h *hook) note(m string) { h.r.evs = append(h.r.evs, ev{"hook", m, h.level}) }
 func (h *hook) Do(client rueidis.Client, ctx context.Context, cmd rueidis.Completed) rueidis.RedisResult {
 	h.note("Do")
 	return client.Do(ctx, cmd)
@@ -180,13 +184,15 @@ func init() {
 		rec(append(p, "node1"), d+1)
 	}
 	rec(nil, 0)
-	for _, np := range nodePaths {
-		for _, m := range clientMethods {
-			allCases = append(allCases, Case{Path: np, Method: m})
-		}
-		for _, last := range []string{"dedicated", "dedicate"} {
-			for _, m := range dedicatedMethods {
-				allCases = append(allCases, Case{Path: append(append([]string(nil), np...), last), Method: m})
+	for stack := 1; stack <= 3; stack++ {
+		for _, np := range nodePaths {
+			for _, m := range clientMethods {
+				allCases = append(allCases, Case{Path: np, Method: m, Stack: stack})
+			}
+			for _, last := range []string{"dedicated", "dedicate"} {
+				for _, m := range dedicatedMethods {
+					allCases = append(allCases, Case{Path: append(append([]string(nil), np...), last), Method: m, Stack: stack})
+				}
 			}
 		}
 	}
@@ -207,7 +213,16 @@ func run(ci any) (res obs.Result) {
 	res.Kind = "client"
 	rc := &rec{}
 	root := &fake{id: 7, r: rc}
-	var cl rueidis.Client = rueidishook.WithHook(root, &hook{r: rc})
+	if c.Stack < 1 {
+		c.Stack = 1
+	}
+	if c.Stack > 8 {
+		c.Stack = 8
+	}
+	var cl rueidis.Client = root
+	for l := 1; l <= c.Stack; l++ {
+		cl = rueidishook.WithHook(cl, &hook{r: rc, level: uint64(l)})
+	}
 	var ded rueidis.DedicatedClient
 	wantID := uint64(7)
 	var derivs []string
@@ -314,48 +329,71 @@ func run(ci any) (res obs.Result) {
 		pmsg = call(do)
 	}
 	// observation
-	var items []string
-	var hooks, inners int
+	var items, sitems []string
+	var hookLevels []uint64
+	var inners int
 	for i, e := range rc.evs {
 		switch e.kind {
 		case "hook":
-			hooks++
+			hookLevels = append(hookLevels, e.id)
 			id := uint64(0)
 			if i+1 < len(rc.evs) && rc.evs[i+1].kind == "inner" {
 				id = rc.evs[i+1].id // the client the hook was handed is the one its call reached
 			}
 			items = append(items, obs.App("EvHook", packed(e.m), obs.N(id)))
+			sitems = append(sitems, obs.App("SHook", obs.N(e.id), packed(e.m)))
 		case "inner":
 			inners++
 			items = append(items, obs.App("EvInner", packed(e.m), obs.N(e.id)))
+			sitems = append(sitems, obs.App("SInner", packed(e.m), obs.N(e.id)))
 		}
 	}
 	if pmsg != "" {
 		items = append(items, "EvPanic")
+		sitems = append(sitems, "SPanic")
 	}
 	last := ""
 	if n := len(rc.evs); n > 0 {
 		last = fmt.Sprintf("fake:%d:%s:%d", rc.evs[n-1].id, rc.evs[n-1].m, rc.seq)
 	}
 	unchanged := !requests[c.Method] || got == last
-	res.Coq = obs.App("CCall", "7", obs.List(derivs), packed(c.Method), obs.List(items), obs.Bool(unchanged))
-	res.Sig = strings.Join(c.Path, "/") + "." + c.Method
+	if c.Stack == 1 {
+		res.Coq = obs.App("CCall", "7", obs.List(derivs), packed(c.Method), obs.List(items), obs.Bool(unchanged))
+	} else {
+		levels := make([]string, 0, c.Stack)
+		for l := c.Stack; l >= 1; l-- { // outermost first
+			levels = append(levels, fmt.Sprint(l))
+		}
+		res.Coq = obs.App("CStack", obs.List(levels), "7", obs.List(derivs), packed(c.Method), obs.List(sitems))
+	}
+	res.Sig = fmt.Sprint(c.Stack, ":", strings.Join(c.Path, "/"), ".", c.Method)
 	res.Nontrivial = requests[c.Method]
 	res.Obs = map[string]any{"events": fmt.Sprint(rc.evs), "returned": got, "panic": pmsg}
 	res.Site, res.Class = "rueidishook/hook.go:"+res.Kind+"."+c.Method, "hook-bypass"
 	if requests[c.Method] {
+		// every hook of the stack exactly once, outermost first, then the underlying client of exactly this derived client
+		wantLevels := make([]uint64, 0, c.Stack)
+		for l := c.Stack; l >= 1; l-- {
+			wantLevels = append(wantLevels, uint64(l))
+		}
+		n := len(rc.evs)
 		switch {
 		case pmsg != "":
 			res.Oracle = "panic: " + pmsg
-		case hooks != 1:
-			res.Oracle = fmt.Sprintf("%s passed through the hook %d times (events %v)", c.Method, hooks, rc.evs)
-		case len(rc.evs) != 2 || rc.evs[0].kind != "hook" || rc.evs[0].m != c.Method || rc.evs[1].kind != "inner" || rc.evs[1].m != c.Method:
+		case fmt.Sprint(hookLevels) != fmt.Sprint(wantLevels):
+			res.Oracle = fmt.Sprintf("%s on a stack of %d hooks passed through hooks %v, want each once in the order %v (events %v)", c.Method, c.Stack, hookLevels, wantLevels, rc.evs)
+		case inners != 1 || n != c.Stack+1 || rc.evs[n-1].kind != "inner" || rc.evs[n-1].m != c.Method:
 			res.Oracle = fmt.Sprintf("%s: unexpected event sequence %v", c.Method, rc.evs)
-		case rc.evs[1].id != wantID:
-			res.Oracle = fmt.Sprintf("%s: the hook was handed client %d, the derived client wraps %d", c.Method, rc.evs[1].id, wantID)
+		case rc.evs[n-1].id != wantID:
+			res.Oracle = fmt.Sprintf("%s reached the underlying client %d, the derived client wraps %d", c.Method, rc.evs[n-1].id, wantID)
 		case !unchanged:
-			res.Oracle = fmt.Sprintf("%s returned %q, the hook returned %q", c.Method, got, last)
+			res.Oracle = fmt.Sprintf("%s returned %q, the hooks returned %q", c.Method, got, last)
 			res.Class = "result-changed"
+		}
+		for _, e := range rc.evs {
+			if e.kind == "hook" && e.m != c.Method && res.Oracle == "" {
+				res.Oracle = fmt.Sprintf("%s was routed to hook method %s", c.Method, e.m)
+			}
 		}
 	}
 	return
